@@ -50,6 +50,12 @@ class FMMetrics(Metrics):  # pylint: disable=too-many-instance-attributes
     def get_result(self) -> list[dict[str, Any]]:
         return self.result
 
+    def execute(self, model: VariabilityModel) -> 'FMMetrics':
+        # Metrics.execute() extends self.result: start from an empty report for every execution
+        self.result = []
+        super().execute(model)
+        return self
+
     def calculate_metamodel_metrics(self, model: VariabilityModel) -> list[dict[str, Any]]:
         self.model = cast(FeatureModel, model)
 
